@@ -33,8 +33,16 @@ def one_tree(ctx, drv):
                 continue
             kind, p, mf = m
             ctx.count('mutation:' + kind)
-            if kind == 'stray-dir-with-file':
-                pass
+            if kind == 'delete-dir':
+                # what was expected below the vanished directory: listed files are now missing (reported), strays are gone
+                dd = pl.last_deleted_dir
+                listed = set(gen_tree.listed_files(pl))
+                for q in list(expected):
+                    if q.startswith(dd + '/'):
+                        if q in listed:
+                            expected[q] = True
+                        else:
+                            del expected[q]
             expected[p] = bool(mf) if p not in expected else (expected[p] or bool(mf))
         texts = all_texts(root)
         dirs = sorted(d for d in pl.dirs if os.path.isdir(os.path.join(root, d)))
